@@ -38,6 +38,7 @@ FIXED = [
  ("C15", "631263e", "image reader whose 2nd ReadAt (debug/pe's read of the PE signature) returns a short count with io.ErrUnexpectedEOF: the error was ignored and authenticode.Parse reported success"),
  ("C02", "5b301e4", "image with a section header whose PointerToRawData lies beyond the end of the file, signed through the library: the hashed stream silently ended at that section (io.EOF from the part), so Hash/Sign/Verify agreed on the digest of a prefix and Verify reported success although the bytes behind that section are not covered by any digest (found by the thorough tier of C02, class foreign_signer_splice)"),
  ("C14", "2802ee9", "legacy efi.GetBootOrder / efi.GetBootEntry with a BootOrder or Boot#### variable file that is absent or shorter than the four attribute bytes: the error of attributes.ReadEfivars was discarded and the nil buffer used, a nil pointer dereference (found after the legacy package-level getters were added to C14 as an entry point; first seen by a sub-agent of seed round 8 while reading the code)"),
+ ("C13", "c0e0cac", "on a 32-bit build (GOARCH=386) authenticode.Parse of an image whose certificate-table directory entry declares a size of 2 GiB or more (e.g. 0xffffff00): int(ddEntry.Size) is negative, the subtraction gives a length beyond the buffer and bytes.Buffer.Truncate panics. First seen by a sub-agent of the second benign round while testing its own change under GOARCH=386; C13 got a GOARCH=386 shard, which found it in the first quick run (replays/C13/regress-c0e0cac.json is a 3.8 KiB reproduction, the case file names the 386 build)"),
  ("C18", "f437fe9", "BootOrder with 64 entries read through the legacy efi.GetBootOrder: the loop bound data.Len() shrank while reading, only the first 32 names were returned"),
  ("C05", "44b99d3", "SignPKCS7 with a content type OID whose encoding is longer than ~13 bytes: signed attributes not in DER SET OF order (contentType after signingTime needed), go.mozilla.org/pkcs7 rejected the signature"),
 ]
